@@ -260,12 +260,6 @@ impl SDJWTVerifier {
     }
 
     fn unpack_disclosed_claims_in_array(&mut self, arr: &Vec<Value>) -> Result<Value> {
-        if arr.is_empty() {
-            return Err(Error::InvalidArrayDisclosureObject(
-                "Array of disclosed claims cannot be empty".to_string(),
-            ));
-        }
-
         let mut claims = vec![];
         for value in arr {
 
